@@ -255,14 +255,14 @@ package websocket
 // Write: one unfragmented frame per message, exactly the caller's bytes, only while open and
 // within the size limit; otherwise nothing is queued and nothing is flushed.
 //@ func (*Stream).Write
-//@   prop C16, C08, C15
+//@   prop C16
 //@   requires qInv(s) && len(b) <= 1<<40 && (s.role == RoleClient || s.role == RoleServer)
 //@   let n0  = len(s.pendingFrames)
 //@   let ext = (len(b) > 65535) ? 8 : ((len(b) > 125) ? 2 : 0)
 //@   let off = 2 + ext + ((s.role == RoleClient) ? 4 : 0)
 //@   remember call (*Stream).Flush: flushing = true
 //@   // gate: Flush is reached only while open and within the limit
-//@   assert call (*Stream).Flush: len(b) <= s.maxMessageSize && s.state == StateActive && old(s.state) == StateActive
+//@   assert call (*Stream).Flush: [C08,C15,C16 gate] len(b) <= s.maxMessageSize && s.state == StateActive && old(s.state) == StateActive
 //@   // the frame queued last is FIN + the message type, declares len(b) bytes in the shortest encoding, and is exactly that long
 //@   assert call (*Stream).Flush: len(s.pendingFrames) == n0 + 1 && wireFrame(s, s.pendingFrames[n0]) &&
 //@          (*s.pendingFrames[n0])[0] == 128 | (byte(messageType) & 15) && len(*s.pendingFrames[n0]) == off + len(b) &&
@@ -273,8 +273,8 @@ package websocket
 //@   assert call (*Stream).Flush: s.role == RoleServer ==> (forall k :: 0 <= k && k < len(b) ==> (*s.pendingFrames[n0])[off + k] == old(b[k]))
 //@   assert call (*Stream).Flush: s.role == RoleClient ==> (forall k :: 0 <= k && k < len(b) ==>
 //@          (*s.pendingFrames[n0])[off + k] == old(b[k]) ^ (*s.pendingFrames[n0])[off - 4 + (k & 3)])
-//@   ensures [too-big] len(b) > old(s.maxMessageSize) ==> result == ErrMessageTooBig && len(s.pendingFrames) == n0 && !flushing
-//@   ensures [refused] len(b) <= old(s.maxMessageSize) && old(s.state) != StateActive ==>
+//@   ensures [C15,C16 too-big] len(b) > old(s.maxMessageSize) ==> result == ErrMessageTooBig && len(s.pendingFrames) == n0 && !flushing
+//@   ensures [C08,C15,C16 refused] len(b) <= old(s.maxMessageSize) && old(s.state) != StateActive ==>
 //@           result == sonicerrors.ErrCancelled && len(s.pendingFrames) == n0 && !flushing && s.state == old(s.state)
 
 // WriteFrame: a caller-built frame (from AcquireFrame, so that a client's frame has room for the
